@@ -6,6 +6,7 @@ import (
 	"strconv"
 	"strings"
 
+	"github.com/pentops/j5/gen/j5/list/v1/list_j5pb"
 	"github.com/pentops/j5/gen/j5/schema/v1/schema_j5pb"
 	"github.com/pentops/j5/gen/j5/sourcedef/v1/sourcedef_j5pb"
 )
@@ -51,6 +52,9 @@ type ObjectNode struct {
 	Description string
 	Entity      *schema_j5pb.EntityObject
 	AnyMember   []string
+
+	// ListRequest is set for the request object of a list method
+	ListRequest *list_j5pb.ListRequestMessage
 
 	rootType
 	propertySet
